@@ -348,15 +348,16 @@ class InProtocolBase(ProtocolMixin):
 
     def decimal_from_unicode(self, cls, string):
         cls_attrs = self.get_cls_attrs(cls)
-        if cls_attrs.max_str_len is not None and len(string) > \
-                                                     cls_attrs.max_str_len:
+        if isinstance(string, six.string_types) and \
+                                    cls_attrs.max_str_len is not None and \
+                                    len(string) > cls_attrs.max_str_len:
             raise ValidationError(string, "Decimal %%r longer than %d "
                                           "characters" % cls_attrs.max_str_len)
 
         try:
             return D(string)
-        except InvalidOperation as e:
-            raise ValidationError(string, "%%r: %r" % e)
+        except (InvalidOperation, TypeError, ValueError) as e:
+            raise ValidationError(string, "%%r: %r" % (e,))
 
     def decimal_from_bytes(self, cls, string):
         return self.decimal_from_unicode(cls,
@@ -539,6 +540,9 @@ class InProtocolBase(ProtocolMixin):
                                          "%%r: %s" % repr(e).replace("%", "%%"))
 
     def duration_from_unicode(self, cls, string):
+        if not isinstance(string, six.string_types):
+            raise ValidationError(string)
+
         match = _duration_re.match(string)
         if match is None:
             raise ValidationError(string,
